@@ -998,9 +998,12 @@ Definition s_arith (op : N) (a b : sval) (ex : bool) : souts :=
        | Zneg p => mk_real (- (an * Zpos bd)) (ad * p) ex
        end)
     else if op =? op_Remainder then
+      (* the truncated operands may be any 64-bit integers, the minimum included: x % -1 = 0 also for
+         a real that holds -2^63 (no trap) *)
       (let x := q_trunc an ad in let y := q_trunc bn bd in
+       let fits64s (z : Z) := ((- Z.of_N two63 <=? z) && (z <? Z.of_N two63))%Z in
        if (y =? 0)%Z then SNoValue
-       else if negb (fits63 x && fits63 y) then SOutside 1
+       else if negb (fits64s x && fits64s y) then SOutside 1
        else mk_int (Z.rem x y) ex)
     else if op =? op_Exponent then
       (* both operands integer valued; a negative exponent gives the reciprocal *)
